@@ -352,10 +352,15 @@ func c18GenCase(r *vh.Rng) *c18Gen {
 		if r.Chance(35) {
 			text = vdsn.NastyTexts[r.Intn(len(vdsn.NastyTexts))]
 		}
+		codeLike := r.Chance(8)
+		if codeLike {
+			// round 11: texts that begin like an address / a version / a status code / a basic code
+			text = c18CodeLikeTexts[r.Intn(len(c18CodeLikeTexts))]
+		}
 		switch k := r.Intn(10); {
 		case k < 7:
 			rc.dkind, rc.dcode, rc.dench, rc.dtext = 'S', c[0], [3]int{c[1], c[2], c[3]}, text
-			if r.Chance(10) {
+			if r.Chance(10) || (codeLike && r.Chance(50)) {
 				rc.dench = [3]int{0, 0, 0}
 			}
 		case k < 9:
@@ -375,6 +380,16 @@ func c18GenCase(r *vh.Rng) *c18Gen {
 		g.rcpts = append(g.rcpts, rc)
 	}
 	return g
+}
+
+// c18CodeLikeTexts: error texts whose beginning reads like a number group (the same family as in
+// the queue harness): the text of a reply is text, whatever it looks like.
+var c18CodeLikeTexts = []string{
+	"192.0.2.25 is listed in our block list", "198.51.100.7", "10.1.2 is the minimum client version",
+	"4.2.2 Mailbox full", "5.1.1 User unknown", "2.0.0 nonsense: this was a failure", "0.0.0 no class", "5.1.1", "7.7.7 class seven",
+	"999.1000.70000 out of range", "5.1.1.1 four numbers", "5.1 two numbers", "550 5.1.1 code repeated in the text", "550 no such user", "554",
+	" 5.2.2 leading blank", "5.2.2\nsecond line", "+5.1.1 signed", "05.01.01 padded", "\uff15.\uff11.\uff11 full-width digits",
+	"smtp; 550 5.1.1 looks like a Diagnostic-Code", "[192.0.2.1] said: 550 5.7.1 rejected", "4.2.2\rbare CR after a code",
 }
 
 func TestVerifC18Gen(t *testing.T) {
